@@ -182,11 +182,30 @@ def run(ctx):
         if rng.random() < 0.12:
             idle_after = rng.randint(0, len(reqs))
             reqs = reqs[:idle_after]                      # nothing is sent after the idle gap
-        family = rng.choice(['seq', 'seq', 'split', 'pipeline'])
+        family = rng.choice(['seq', 'seq', 'split', 'pipeline', 'stallmid', 'coalesce'])
         items = []
+        stall_tail = None
+        if family == 'stallmid':
+            # the client stops in the middle of a request (after at least one byte) and stays silent past the timeout
+            reqs = [r for r in reqs if not r['bad'] and r['ka']]
+            extra = gen_request(rng, force_ka=True)
+            stall_tail = extra['raw'][:rng.randint(1, len(extra['raw']) - 1)]
+            idle_after = len(reqs)
+        if family == 'coalesce' and len(reqs) < 2:
+            family = 'seq'
         if family == 'pipeline' and len(reqs) >= 2:
             items.append(hx(b''.join(r['raw'] for r in reqs)))
             items.append('w')
+        elif family == 'coalesce':
+            # one segment carries a whole request and the first bytes of the next one (partial coalescing)
+            for j, r in enumerate(reqs):
+                raw = r['raw']
+                if j == 0:
+                    nxt = reqs[1]['raw']
+                    k2 = rng.randint(1, len(nxt) - 1)
+                    items += [hx(raw + nxt[:k2]), 'w', hx(nxt[k2:]), 'w']
+                elif j >= 2:
+                    items += [hx(raw), 'w']
         else:
             for r in reqs:
                 raw = r['raw']
@@ -201,6 +220,8 @@ def run(ctx):
                     items[-1] = 'w'
                 else:
                     items += [hx(raw), 'w']
+        if stall_tail is not None:
+            items += [hx(stall_tail), 'p']
         if idle_after is not None:
             items.append('i')
         line = 'conn ' + ','.join(items)
@@ -219,6 +240,21 @@ def run(ctx):
         tim = ctx.impl(tlines, tokio=True)
         ctx.evaluations += len(tlines)
         judge(ctx, [cases[i] for i in tk], [m[i] for i in tk], tim, 'tokio')
+    # a panicking handler costs only its own connection: other open connections and the listener survive it
+    if not ctx.replay:
+        sl = ['survive %d' % k for k in ([1, 2, 3, 5] if thorough else [1, 3])]
+        for line, b in zip(sl, ctx.impl(sl)):
+            ctx.evaluations += 1
+            ctx.count('panic-isolation cases')
+            mm = re.match(r'^panicking=(\d+):(\d) others=(\d+)/(\d+) fresh=(\d)$', b)
+            if not mm or mm.group(3) != mm.group(4) or mm.group(5) != '1':
+                ctx.report({'line': line}, b, 'every other connection and a fresh one are served after the panic', cls='conn-panic-isolation',
+                           failing_input=True, what='a panicking handler affected other connections: ' + b)
+            elif mm.group(2) != '1' or mm.group(1) != '0':
+                ctx.report({'line': line}, b, 'the panicking connection is closed without a response', cls='conn-panic-isolation',
+                           failing_input=False, what='the connection whose handler panicked was not simply closed: ' + b)
+            else:
+                ctx.mark_nontrivial(line)
     for k in (0, len(lines) // 2):
         if k < len(lines) and cases[k][1]:
             ctx.sample({'family': cases[k][1]['family'], 'requests': [r['raw'].decode('latin-1')[:60] for r in cases[k][1]['reqs']],
@@ -248,17 +284,28 @@ def judge(ctx, cases, m, im, runtime):
             continue
         ctx.count(runtime + ':family:' + info['family'])
         ctx.count('model-end:' + mod_end)
+        if info['family'] == 'stallmid':
+            # a client that falls silent in the middle of a request: the connection timeout only covers the wait for the first
+            # byte of a request (from_stream_with_timeout clears it afterwards), so nothing times out; outside the property's
+            # quantifier ("idle past timeout" is the wait between requests) - compared with the model only
+            # (the 400 is written only after the harness has half-closed, so the "closed" observation is not meaningful here)
+            same = mask_date(got_bytes) == mod_bytes
+            ctx.count('mid-request stall: model agrees' if same else 'mid-request stall: model differs')
+            if not same:
+                ctx.report({'line': line, 'runtime': runtime, 'family': 'stallmid'}, b[:400], a[:400], cls='conn-mismatch', failing_input=False,
+                           what='mid-request stall: bytes on the wire differ from the model')
+            continue
         exp, exp_closed = expected(info['reqs'], info['idle'])
         v = check_property(exp, exp_closed, got, stray, err, closed, now)
         case = {'line': line, 'runtime': runtime, 'family': info['family'], 'requests': [r['raw'].decode('latin-1')[:80] for r in info['reqs']], 'idle': info['idle']}
         if v is not None:
             cls, what = v
-            if info['family'] == 'pipeline' and cls in ('count', 'keepalive', 'status'):
+            if info['family'] in ('pipeline', 'coalesce') and cls in ('count', 'keepalive', 'status'):
                 ctx.report(case, what, 'one response per request', cls='readahead', failing_input=True,
                            what='several requests delivered in one read: ' + what)
             else:
                 ctx.report(case, what + ' | ' + b[:300], 'property', cls='conn-' + cls, failing_input=True, what=what)
-        elif not same and info['family'] != 'pipeline':
+        elif not same and info['family'] not in ('pipeline', 'coalesce'):
             ctx.report(case, b[:400], a[:400], cls='conn-mismatch', failing_input=False,
                        what='bytes on the wire differ from the model (property holds on this input)')
         if len(info['reqs']) >= 2 or info['family'] == 'split' or info['idle'] is not None or any(r['bad'] for r in info['reqs']):
